@@ -580,6 +580,12 @@ func classifyReplay(v violation, out string, err error) string {
 		if outcome == "VXASSERT: "+v.Msg {
 			return "reproduced"
 		}
+		// the same inputs make the real build fail another assertion of the
+		// same harness and owner (the native scheduler or allocator took a
+		// different turn): still a failing run of the real code
+		if strings.HasPrefix(outcome, "VXASSERT: ") && ownerOf(strings.TrimPrefix(outcome, "VXASSERT: ")) == ownerOf(v.Msg) {
+			return "reproduced"
+		}
 	case "race":
 		if strings.Contains(out, "DATA RACE") {
 			return "reproduced"
